@@ -96,6 +96,33 @@ Theorem C13_fixed_line_and_col_spec : forall data off, off <= length data ->
 Proof. exact fixed_source_pos_lemma. Qed.
 Print Assumptions C13_fixed_line_and_col_spec.
 
+(* NodeInfo.End of an item (offset o, length len > 0) is the position just after its last character: for every
+   strictly increasing table with no entry at o + len and a last byte that starts a character and is not a tab,
+   it equals SourcePos (o + len) - whatever the item contains (tabs, multi-byte characters) *)
+Theorem C13_span_end_is_position_after_last_character : forall t data o len,
+  StronglySorted lt (0 :: t) -> 0 < len -> o + len <= length data ->
+  ~ In (o + len) (0 :: t) ->
+  nth (o + len - 1) data 0%N <> 9%N -> rune_start (nth (o + len - 1) data 0%N) = true ->
+  node_end (0 :: t) data (o, len) = source_pos (0 :: t) data (o + len).
+Proof. exact node_end_after_last_char_lemma. Qed.
+Print Assumptions C13_span_end_is_position_after_last_character.
+
+(* with the table of the repaired lexer: the end of every item whose last byte is an ASCII character other than
+   tab and newline (every token: identifiers, numbers, quoted strings, punctuation) has the line and the column of
+   the property at the offset just after the item *)
+Theorem C13_fixed_span_end_spec : forall data o len,
+  0 < len -> o + len <= length data ->
+  (nth (o + len - 1) data 0 < 128)%N -> nth (o + len - 1) data 0%N <> 9%N -> nth (o + len - 1) data 0%N <> 10%N ->
+  node_end (lex_lines_fixed data) data (o, len)
+  = Some (1 + count_nl (firstn (o + len) data), 1 + col_loop (slice data (line_start data (o + len)) (o + len)) 0).
+Proof. exact fixed_node_end_lemma. Qed.
+Print Assumptions C13_fixed_span_end_spec.
+
+Example C13_span_end_nonvacuous :
+  node_end (lex_lines_fixed [34; 9; 34]%N) [34; 9; 34]%N (0, 3) = Some (1, 10) /\
+  node_end (lex_lines_fixed [32; 34; 195; 169; 9; 34; 59]%N) [32; 34; 195; 169; 9; 34; 59]%N (1, 5) = Some (1, 10).
+Proof. exact node_end_example. Qed.
+
 (* non-vacuity *)
 Example C13_nonvacuous :
   upto 6 (missed_newlines [34; 195; 169; 34; 10; 9; 120]%N) = [] /\
